@@ -60,3 +60,13 @@ func (cc *Conn) VerifAux() (observations []uint64, bwReceiving int, bwSending in
 	}
 	return
 }
+
+// VerifAgeResponseCache makes every entry of the default response cache d older (its validity ends d earlier)
+// without running a sweep: the harness's way to let the exchange lifetime elapse.
+func (cc *Conn) VerifAgeResponseCache(d time.Duration) {
+	if mc, ok := cc.responseMsgCache.(*messageCache); ok {
+		for _, e := range mc.c.CopyData() {
+			e.ValidUntil.Store(e.ValidUntil.Load().Add(-d))
+		}
+	}
+}
